@@ -112,6 +112,9 @@ class World {
   unsigned creep_every = 0, clock_reads = 0;
   unsigned wire_count = 0;
   std::function<FaultDecision(const Datagram &, unsigned index)> fault;  // null = deliver everything at once
+  // datagram sends of the library that fail at the socket (index = count of the library's datagram sends so far); null = none ever fails
+  std::function<bool(unsigned index)> send_fails;
+  unsigned lib_sends = 0;
   std::vector<TraceEv> trace;
   bool record_payloads = true;
   unsigned steps = 0;
